@@ -190,6 +190,9 @@ def c13(run):
     # long histories: many event/response cycles per core
     random_round(run, "long", run.seed, 60 if q else 400, ["core", "bridge_bin", "bridge_json"], "mixed", 2,
                  300 if q else 2000, selftest=True)
+    # requests spent by an undecodable response must be forgotten as well
+    random_round(run, "longbad", run.seed + 3, 40 if q else 300, ["bridge_bin", "bridge_json"], "mixed", 2,
+                 200 if q else 1500, bad=0.15)
     report_known(run)
     # findings of C13 are reported whenever the deviation was exercised
     for f in lib.kf_for("C13"):
